@@ -183,6 +183,16 @@ var properties = map[string]*propSpec{
 			{Check: "TestC15_Errors", Class: "nontrivial:multi-failure", Min: 0.08},
 		},
 	},
+	"C18": {
+		Title: "Equivalent spellings of a path behave identically",
+		Checks: []checkSpec{
+			{Test: "TestC18_Spellings", Quick: 15000, Thorough: 250000, Rapid: true},
+		},
+		Assumptions: assume(pegiAssumption, "relational oracle: spellings are compared with each other; the renderer's set of 'insignificant' variations is the list in the property statement"),
+		Floors: []floor{
+			{Check: "TestC18_Spellings", Class: "nontrivial", Min: 0.5},
+		},
+	},
 	"C20": {
 		Title: "Values that are not decoded JSON are treated as opaque leaves, never crash",
 		Checks: []checkSpec{
